@@ -366,6 +366,14 @@ class CallMixin:
                     so.meta["copy_mode"] = None
                     so.meta["fresh_fields"] = bool(ro.get("fields_fresh"))
                     so.meta["elem_origin"] = "new" if ro.get("elems_fresh") else "opaque"
+                    if not ro.get("elems_fresh") and ro.get("elems_from_inputs"):
+                        # the elements that are not new are the caller's own arguments' (or the receiver's)
+                        srcs = [x for x in [recv] + list(args) + list(kwargs.values()) if isinstance(x, Sym)]
+                        os_ = {owner_of(x) for x in srcs}
+                        if "input" in os_:
+                            so.meta["elem_origin"] = "input"
+                        elif os_ <= {"new"}:
+                            so.meta["elem_origin"] = "new"
             return so
         return o
 
@@ -716,10 +724,15 @@ class CallMixin:
         if x.mod == "typing" and nm == "cast":
             # types-lite: a cast refines the kind set (the developer's claim is trusted; listed as an assumption)
             v = args[1]
+
+            def _ki(k: str, t: Any) -> bool:
+                if t.repo is not None and self.prog.is_subclass(t.repo, "TypedDict"):
+                    return k == "DICT"      # a TypedDict is a plain dict at run time
+                return self.U.kind_isinstance(k, t)
             if isinstance(v, SObj) and len(v.kinds) > 1:
                 try:
                     refs = self.typeref(args[0], node)
-                    sat = {k for k in v.kinds if any(self.U.kind_isinstance(k, t) for t in refs)}
+                    sat = {k for k in v.kinds if any(_ki(k, t) for t in refs)}
                 except Unmodelled:
                     sat = None
                 if sat is not None:
@@ -730,7 +743,7 @@ class CallMixin:
             elif isinstance(v, SObj) and len(v.kinds) == 1:
                 try:
                     refs = self.typeref(args[0], node)
-                    if not any(self.U.kind_isinstance(next(iter(v.kinds)), t) for t in refs):
+                    if not any(_ki(next(iter(v.kinds)), t) for t in refs):
                         from .interp import Infeasible
                         raise Infeasible()
                 except Unmodelled:
@@ -1498,6 +1511,28 @@ def collecting_twin(fn: ast.FunctionDef) -> ast.FunctionDef:
     tw.__dict__["_sa_is_gen"] = False
     fn.__dict__["_sa_twin"] = tw
     return tw
+
+
+def owner_of(x: Any) -> str:
+    """"input" when x is (or holds) an object that existed before the function under analysis ran, "new" when x and what it
+    holds were made here, else "opaque"."""
+    if isinstance(x, (SStr, SBool)):
+        return "new"
+    if isinstance(x, SObj):
+        if x.origin in ("input", "global"):
+            return "input"
+        if x.origin == "new":
+            eo = x.meta.get("elem_origin", "new")
+            return "new" if eo == "new" else ("input" if eo in ("input", "global") else "opaque")
+        return "opaque"
+    if isinstance(x, SNew):
+        eo = x.__dict__.get("meta", {}).get("elem_origin", "new")
+        return "new" if eo == "new" else ("input" if eo in ("input", "global") else "opaque")
+    if isinstance(x, (SList, SDict)):
+        if getattr(x, "origin", "new") in ("input", "global"):
+            return "input"
+        return _args_elem_origin([x]) if isinstance(x, SList) else "opaque"
+    return "opaque"
 
 
 def _args_elem_origin(args: List[Any], depth: int = 0) -> str:
